@@ -494,7 +494,7 @@ class ITerm2Image(GraphicsImage, metaclass=ITerm2ImageMeta):
             if name in {"iterm2", "konsole", "wezterm"}:
                 try:
                     if name != "konsole" or (
-                        tuple(map(int, version.split("."))) >= (22, 4, 0)
+                        tuple(map(int, (version or "").split("."))) >= (22, 4, 0)
                     ):
                         cls._supported = True
                         cls._TERM, cls._TERM_VERSION = name, version
